@@ -200,8 +200,11 @@ impl PosixTz {
         let day = t.div_euclid(86_400) + cal::DAYS_TO_1970;
         let (y, _, _) = cal::ymd_from_days(day);
         let mut best: Option<(i64, bool)> = None; // (instant, is_dst_after)
-        for yy in [y - 1, y, y + 1] {
-            if yy < 1 {
+        // the calendar has no year 0: -1 is followed by 1
+        let prev = if y - 1 == 0 { -1 } else { y - 1 };
+        let next = if y + 1 == 0 { 1 } else { y + 1 };
+        for yy in [prev, y, next] {
+            if yy < cal::MIN_YMD.0 || yy > cal::MAX_YMD.0 {
                 continue;
             }
             let start = (rule_date(&dst.start, yy) - cal::DAYS_TO_1970) * 86_400 + dst.start_time as i64 - self.std_utoff as i64;
